@@ -158,8 +158,11 @@ def exec_conserve(sc):
                 if em > 1e-9:
                     viol.append({"inv": "COV-scaling", "msg": f"MLE calibration changed the mean at output {i}: {em:.2e}"})
                     break
-                if ec > 1e-9:
-                    viol.append({"inv": "COV-scaling", "msg": f"calibrated covariance at output {i} is not the unit-scale covariance times scale^2: {ec:.2e}"})
+                # two float64 evaluations of a covariance whose correlation matrix has condition number k agree to about
+                # eps sqrt(k) (square-root arithmetic); observed 1.0e-9 at k = 1.2e14 (q = 5, d = 3, smoothed marginal at t0)
+                tol_i = compare.cond_tol(1e-9, compare.corr_cond(want)) if onp.max(onp.abs(want)) > 0 else 1e-9
+                if ec > tol_i:
+                    viol.append({"inv": "COV-scaling", "msg": f"calibrated covariance at output {i} is not the unit-scale covariance times scale^2: {ec:.2e} (tol {tol_i:.1e})"})
                     break
             # smoothers also return the filtering marginals: same rule
             if cfg["strategy"] != "filter" and not viol:
@@ -170,7 +173,8 @@ def exec_conserve(sc):
                     m1, P1 = embed.normal_np_at(f1, i)
                     want = scale_np(P0, rep, d)
                     ec = compare.self_cov_err(P1, want, q, d, hm) if onp.max(onp.abs(want)) > 0 else float(onp.max(onp.abs(P1)))
-                    if ec > 1e-9 or compare.mean_err(m1, m0, q, d, hm) > 1e-9:
+                    tol_i = compare.cond_tol(1e-9, compare.corr_cond(want)) if onp.max(onp.abs(want)) > 0 else 1e-9
+                    if ec > tol_i or compare.mean_err(m1, m0, q, d, hm) > 1e-9:
                         viol.append({"inv": "COV-scaling", "msg": f"returned filtering marginal at output {i} is not the unit-scale one times scale^2: {ec:.2e}"})
                         break
                 probes["filtering_marginals_compared"] = 1
